@@ -43,13 +43,15 @@ SumC(S) == IF S = {} THEN EmptyC ELSE LET x == CHOOSE y \in S : TRUE IN x ++ Sum
 \* package name -> directory: only the two package names of PkgNames occur
 DirOf(p) == IF p = "foo.v1" THEN "foo/v1" ELSE "bar/baz/v1"
 MainFile(p, f) == DirOf(p) \o "/" \o f \o ".j5s.proto"
+ProtoFileName(p, f) == DirOf(p) \o "/" \o f \o ".proto"
+OutFile(p, f, kind) == IF kind = "proto" THEN ProtoFileName(p, f) ELSE MainFile(p, f)
 SubFile(p, sub, f) == DirOf(p) \o "/" \o sub \o "/" \o f \o ".p.j5s.proto"
 
 \* the file that declares top-level type n of package p
 DefFile(b, p, n) ==
     LET pk == CHOOSE x \in { b.pkgs[j] : j \in Idx(b.pkgs) } : x.name = p
         fd == CHOOSE x \in TopDecls(pk) : x[2].name.src = n
-    IN MainFile(p, fd[1])
+    IN OutFile(p, fd[1], fd[3])
 
 \* R "Scalar Types" table
 ScalarProto(s) ==
@@ -173,8 +175,18 @@ DeclC(b, p, fname, scope, parent, d) ==
                       ++ one(d.name.src \o "Topic", "upsert", d.messages[1].name.src, d.messages[1].name.src \o "Message",
                              d.messages[1].fields, << <<"upsert", "j5.messaging.v1.UpsertMetadata">> >>)
 
+\* a hand-written proto file contributes exactly what it says: messages with fields numbered by position, enums
+ProtoDeclC(b, p, fname, d) ==
+    LET file == ProtoFileName(p, fname) IN
+    IF d.kind = "enum" THEN EnumC(file, p, "", d.name.src, ScreamingSnake(d.name) \o "_", d.options)
+    ELSE MsgC(b, file, p, p, "", d.name.src, "object", d.fields, <<>>)
+
 Contract(b) ==
     SumC(UNION { UNION { LET pk == b.pkgs[p] fl == pk.files[f] IN
+                         IF fl.kind = "proto"
+                         THEN { [EmptyC EXCEPT !.files = {[name |-> ProtoFileName(pk.name, fl.name), pkg |-> pk.name]}] }
+                              \cup { ProtoDeclC(b, pk.name, fl.name, fl.decls[d]) : d \in Idx(fl.decls) }
+                         ELSE
                          { [EmptyC EXCEPT !.files = {[name |-> MainFile(pk.name, fl.name), pkg |-> pk.name]}] }
                          \cup { DeclC(b, pk.name, fl.name, pk.name, "", fl.decls[d]) : d \in Idx(fl.decls) }
                        : f \in Idx(b.pkgs[p].files) }
